@@ -317,8 +317,71 @@ fn reentrant_error(rep: &mut Report) {
     }
 }
 
+/// an appender of the configuration that is being replaced reconfigures once more when it is dropped
+/// (a batching appender failing over on shutdown): set_config must return
+#[derive(Debug)]
+struct DropReconfigures {
+    handle: Arc<Mutex<Option<Handle>>>,
+    log: EvLog,
+    armed: Arc<std::sync::atomic::AtomicBool>,
+}
+impl Append for DropReconfigures {
+    fn append(&self, _: &Record) -> anyhow::Result<()> {
+        Ok(())
+    }
+    fn flush(&self) {}
+}
+impl Drop for DropReconfigures {
+    fn drop(&mut self) {
+        if self.armed.swap(false, std::sync::atomic::Ordering::SeqCst) {
+            let h = self.handle.lock().unwrap().clone();
+            if let Some(h) = h {
+                h.set_config(conf('C', &self.log));
+            }
+        }
+    }
+}
+
+fn reentrant_drop(rep: &mut Report) {
+    rep.add("evaluations", 1);
+    let case = json!({"reentrant": "appender of the replaced configuration calls set_config from its Drop"});
+    let (tx, rx) = std::sync::mpsc::channel();
+    std::thread::spawn(move || {
+        let log: EvLog = Arc::new(Mutex::new(vec![]));
+        let slot: Arc<Mutex<Option<Handle>>> = Arc::new(Mutex::new(None));
+        let armed = Arc::new(std::sync::atomic::AtomicBool::new(true));
+        let cfg = Config::builder()
+            .appender(Appender::builder().build("Z", Box::new(DropReconfigures { handle: slot.clone(), log: log.clone(), armed })))
+            .logger(Logger::builder().additive(false).appenders(["Z"]).build("t", LevelFilter::Trace))
+            .build(Root::builder().build(LevelFilter::Off))
+            .unwrap();
+        let logger = log4rs::Logger::new(cfg);
+        let handle = logger.verif_handle();
+        *slot.lock().unwrap() = Some(handle.clone());
+        let r = catch_panic(|| {
+            handle.set_config(conf('B', &log));
+            logger.log(&Record::builder().level(Level::Info).target("t").args(format_args!("after")).build());
+        });
+        let evs = log.lock().unwrap().clone();
+        let _ = tx.send((r, evs));
+    });
+    match rx.recv_timeout(Duration::from_secs(10)) {
+        Err(_) => rep.violation("reentrant:deadlock", format!("{}: set_config did not return within 10 s", case), case),
+        Ok((Err(p), _)) => rep.violation(format!("reentrant:panic:{}", panic_site(&p)), p, case),
+        Ok((Ok(()), evs)) => {
+            let mut got: Vec<String> = evs.iter().filter_map(|e| match e { Ev::Deliver(m, t) if m == "after" => Some(t.clone()), _ => None }).collect();
+            got.sort();
+            // the record after both reconfigurations is routed entirely by one of the two configurations
+            if got != route('B') && got != route('C') {
+                rep.violation("reentrant:next-record-not-under-new-config", format!("{}: the record went to {:?}", case, got), case);
+            }
+        }
+    }
+}
+
 fn reentrancy(rep: &mut Report) {
     reentrant_error(rep);
+    reentrant_drop(rep);
     for (variant, position) in [("appender", 0usize), ("appender", 1), ("appender", 2), ("filter", 0), ("filter", 1)] {
         rep.add("evaluations", 1);
         let case = json!({"reentrant": variant, "position_in_fan_out": position});
@@ -620,6 +683,13 @@ fn set_mtime(path: &std::path::Path, secs: i64) {
 
 /// child: replays one path on the real init_file + reloader and compares with the model after every poll
 pub fn child_reload(args: &[String]) -> i32 {
+    if std::env::var("C15_STDERR").map_or(false, |v| v == "devfull") {
+        // the reloader reports its errors on standard error; a stream that cannot be written must not stop it
+        use std::os::unix::io::AsRawFd;
+        if let Ok(f) = std::fs::OpenOptions::new().write(true).open("/dev/full") {
+            unsafe { libc::dup2(f.as_raw_fd(), 2) };
+        }
+    }
     let path: Vec<ROp> = serde_json::from_str::<Value>(&args[0]).ok().and_then(|v| v.as_array().map(|a| a.iter().filter_map(rop_from_json).collect())).unwrap_or_default();
     let sb = Sandbox::new();
     let file = sb.path("log4rs.yaml");
@@ -794,6 +864,26 @@ pub fn run(ctx: &Ctx) -> Report {
     spec.runs.fetch_add(spec2.runs.load(std::sync::atomic::Ordering::Relaxed), std::sync::atomic::Ordering::Relaxed);
     if !stats2.complete {
         rep.set("exhaustive", false);
+    }
+    // the same reloader with a standard error stream that cannot be written (/dev/full): every error poll must
+    // leave it alive, so that the valid change that follows is applied
+    for hist_json in [
+        json!([{"write": "ERR"}, "poll", {"write": "B"}, "poll"]),
+        json!(["delete", "poll", {"write": "B"}, "poll"]),
+        json!([{"write": "ERR"}, "poll", "poll", {"write": "A60"}, "poll", {"write": "B"}, "poll"]),
+    ] {
+        rep.add("evaluations", 1);
+        let o = run_child(&ctx.exe, "c15reload", &[hist_json.to_string()], &[("C15_STDERR".into(), "devfull".into())], Duration::from_secs(90));
+        let lines = o.json_lines();
+        if let Some(v) = lines.iter().find(|v| v["kind"] == "violation") {
+            rep.violation(
+                format!("stderr-unwritable:{}", v["sig"].as_str().unwrap_or("?")),
+                format!("file history {} with standard error on /dev/full: {}", hist_json, v["detail"].as_str().unwrap_or("")),
+                json!({"kind": "reloader-stderr", "path": hist_json}),
+            );
+        } else if !lines.iter().any(|v| v["kind"] == "stat") {
+            rep.violation("stderr-unwritable:reloader-process-died", format!("file history {} with standard error on /dev/full: status {:?}", hist_json, o.status), json!({"kind": "reloader-stderr", "path": hist_json}));
+        }
     }
     // traces validated = paths ending in a poll (each replayed in its own process)
     rep.set("traces_validated_against_impl", spec.runs.load(std::sync::atomic::Ordering::Relaxed));
